@@ -2,6 +2,7 @@ package sym
 
 import (
 	"fmt"
+	"os"
 	"go/types"
 	"strings"
 
@@ -26,20 +27,6 @@ type lockState struct {
 	readers int
 }
 
-func (in *interp) runnable() []*thread {
-	var out []*thread
-	for _, t := range in.threads {
-		if t.done {
-			continue
-		}
-		if t.blocked != nil && !t.blocked() {
-			continue
-		}
-		out = append(out, t)
-	}
-	return out
-}
-
 // switchTo hands the baton to t and parks the current thread.
 func (in *interp) switchTo(t *thread) {
 	me := in.cur
@@ -47,7 +34,6 @@ func (in *interp) switchTo(t *thread) {
 		return
 	}
 	in.cur = t
-	in.schedLog = append(in.schedLog, t.id)
 	saved := in.curFrame
 	t.wake <- struct{}{}
 	<-me.wake
@@ -57,46 +43,104 @@ func (in *interp) switchTo(t *thread) {
 	}
 }
 
-// yield is a scheduling point: the scheduler may preempt the current thread.
-func (in *interp) yield() {
-	if len(in.threads) <= 1 {
-		return
+// schedEligible reports whether the function that called the synchronisation
+// primitive belongs to PD (or the harness); only those calls are scheduling
+// points, in the executor and in the native replay alike.
+func schedEligible(fr *frame) bool {
+	if fr == nil || fr.caller == nil {
+		return true
 	}
-	rs := in.runnable()
-	if len(rs) <= 1 {
-		return
+	p := fnPkgPath(fr.caller.fn)
+	if !strings.HasPrefix(p, "github.com/tikv/pd") {
+		return false
 	}
-	if in.preempts >= in.x.cfg.MaxPreempt {
-		return
-	}
-	// alternatives: stay (0) or switch to one of the others
-	others := make([]*thread, 0, len(rs))
-	for _, t := range rs {
-		if t != in.cur {
-			others = append(others, t)
+	for _, q := range fr.in.x.cfg.NoSchedPkgs {
+		if p == q {
+			return false
 		}
 	}
-	k := in.choose(1 + len(others))
-	if k == 0 {
-		return
-	}
-	in.preempts++
-	in.switchTo(others[k-1])
+	return true
 }
 
-// block parks the current thread until ready() holds.
-func (in *interp) block(ready func() bool, what string) {
-	for !ready() {
-		me := in.cur
-		me.blocked = ready
-		rs := in.runnable()
-		if len(rs) == 0 {
-			panic(abortPath{"DEADLOCK", "all threads blocked: " + what})
+// schedPoint is a scheduling point of the current thread. canContinue (nil =
+// always) tells whether the thread may proceed (e.g. the lock is free). Exactly
+// one entry is appended to the schedule log: the thread that runs next.
+func (in *interp) schedPoint(canContinue func() bool, what string) {
+	me := in.cur
+	ok := canContinue == nil || canContinue()
+	if len(in.threads) <= 1 {
+		if in.inInterferer {
+			if !ok {
+				// the interfering operation would block here: in a real execution it would
+				// simply run later; that placement is explored as a later firing point
+				panic(abortPath{"INFEASIBLE", "interferer blocked: " + what})
+			}
+			return
 		}
-		k := in.choose(len(rs))
-		in.switchTo(rs[k])
-		me.blocked = nil
+		if in.interferer != nil && !in.interfereDone {
+			if os.Getenv("GOSMT_SCHEDDBG") != "" {
+				fmt.Fprintf(os.Stderr, "schedpoint %d %s @ %s\n", in.interferePoints, what, in.where())
+			}
+			idx := in.interferePoints
+			in.interferePoints++
+			if in.choose(2) == 1 {
+				in.fireInterferer(idx)
+				ok = canContinue == nil || canContinue()
+			}
+		}
+		if !ok {
+			panic(abortPath{"DEADLOCK", "single thread blocked: " + what})
+		}
+		return
 	}
+	var others []*thread
+	for _, t := range in.threads {
+		if t == me || t.done || !t.started || t.id == 0 {
+			continue
+		}
+		if t.blocked != nil && !t.blocked() {
+			continue
+		}
+		others = append(others, t)
+	}
+	var options []*thread
+	if ok {
+		options = append(options, me)
+		if in.preempts < in.x.cfg.MaxPreempt {
+			options = append(options, others...)
+		}
+	} else {
+		options = others
+	}
+	if len(options) == 0 {
+		panic(abortPath{"DEADLOCK", "all threads blocked: " + what})
+	}
+	target := options[in.choose(len(options))]
+	in.schedLog = append(in.schedLog, target.id)
+	if target == me {
+		return
+	}
+	if ok {
+		in.preempts++
+	} else {
+		me.blocked = canContinue
+	}
+	in.switchTo(target)
+	me.blocked = nil
+}
+
+// yield is an unconditional scheduling point.
+func (in *interp) yield() { in.schedPoint(nil, "yield") }
+
+// block parks the current thread until ready() holds (channels, joins).
+func (in *interp) block(ready func() bool, what string) {
+	if ready() {
+		return
+	}
+	if len(in.threads) > 1 {
+		unsupported("blocking %s inside Par (not replayable natively)", what)
+	}
+	panic(abortPath{"DEADLOCK", "single thread blocked: " + what})
 }
 
 func (in *interp) killThreads() {
@@ -141,64 +185,68 @@ func (in *interp) par(fr *frame, fns []value) {
 				if _, ok := p.(killThread); ok {
 					return
 				}
-				if p != nil && panicVal == nil {
-					panicVal = p
+				if p != nil {
+					if panicVal == nil {
+						panicVal = p
+					}
 					in.dead = true
-					// wake main to propagate
 					in.cur = main
 					main.wake <- struct{}{}
 					return
 				}
-				// pick the next thread to run
-				rs := in.runnable()
+				// thread exit: pick the next thread (a scheduling event)
 				var next *thread
-				if len(rs) == 0 {
-					next = main // main is blocked on join; its ready() now decides
-				} else {
-					func() {
-						defer func() {
-							if p := recover(); p != nil {
-								if panicVal == nil {
-									panicVal = p
-								}
-								in.dead = true
-								next = main
+				func() {
+					defer func() {
+						if p := recover(); p != nil {
+							if panicVal == nil {
+								panicVal = p
 							}
-						}()
-						next = rs[in.choose(len(rs))]
+							in.dead = true
+							next = main
+						}
 					}()
-				}
+					var rs []*thread
+					for _, o := range kids {
+						if o.done {
+							continue
+						}
+						if o.blocked != nil && !o.blocked() {
+							continue
+						}
+						rs = append(rs, o)
+					}
+					if len(rs) == 0 {
+						next = main
+						if finished != len(kids) {
+							panic(abortPath{"DEADLOCK", "Par: remaining threads are blocked forever"})
+						}
+					} else {
+						next = rs[in.choose(len(rs))]
+					}
+					in.schedLog = append(in.schedLog, next.id)
+				}()
 				in.cur = next
-				in.schedLog = append(in.schedLog, next.id)
 				next.wake <- struct{}{}
 			}()
 			in.curFrame = nil
 			in.call(nil, fr.callpos, f, nil)
 		}()
 	}
-	// main blocks until all children are done
-	main.blocked = func() bool { return finished == len(kids) }
-	rs := in.runnable()
-	if len(rs) == 0 {
-		panic(abortPath{"DEADLOCK", "Par: nothing runnable"})
-	}
-	first := rs[in.choose(len(rs))]
-	in.cur = first
+	first := kids[in.choose(len(kids))]
 	in.schedLog = append(in.schedLog, first.id)
+	in.cur = first
 	saved := in.curFrame
 	first.wake <- struct{}{}
 	<-main.wake
 	in.curFrame = saved
 	in.cur = main
-	main.blocked = nil
 	if panicVal != nil {
 		in.killThreads()
 		panic(panicVal)
 	}
-	if finished != len(kids) {
-		panic(abortPath{"DEADLOCK", "Par: children blocked forever"})
-	}
 	in.threads = in.threads[:1]
+	in.preempts = 0
 }
 
 // ---------------------------------------------------------------------------
@@ -213,10 +261,14 @@ func (in *interp) lockOf(p *value) *lockState {
 	return l
 }
 
-func (in *interp) lock(p *value) {
-	in.yield()
+func (in *interp) lock(fr *frame, p *value) {
 	l := in.lockOf(p)
-	in.block(func() bool { return !l.writer && l.readers == 0 }, "Lock")
+	free := func() bool { return !l.writer && l.readers == 0 }
+	if schedEligible(fr) {
+		in.schedPoint(free, "Lock")
+	} else if !free() {
+		unsupported("contended lock inside library code")
+	}
 	l.writer = true
 }
 
@@ -228,10 +280,14 @@ func (in *interp) unlock(p *value) {
 	l.writer = false
 }
 
-func (in *interp) rlock(p *value) {
-	in.yield()
+func (in *interp) rlock(fr *frame, p *value) {
 	l := in.lockOf(p)
-	in.block(func() bool { return !l.writer }, "RLock")
+	free := func() bool { return !l.writer }
+	if schedEligible(fr) {
+		in.schedPoint(free, "RLock")
+	} else if !free() {
+		unsupported("contended lock inside library code")
+	}
 	l.readers++
 }
 
@@ -353,4 +409,33 @@ func (in *interp) goStmt(fr *frame, instr *ssa.Go, fn value, args []value) {
 		}
 	}
 	in.skippedGo = append(in.skippedGo, name)
+}
+
+// ---------------------------------------------------------------------------
+// Interleave(main, other): main runs on the current thread; other runs to
+// completion exactly once, either at one of main's scheduling points (chosen
+// nondeterministically, every choice explored) or after main has finished.
+// This is the "one preemption, atomic interferer" fragment of Par; it needs no
+// extra goroutines and its schedule is a single number (the firing point).
+
+func (in *interp) fireInterferer(idx int) {
+	in.interfereDone = true
+	in.schedLog = append(in.schedLog, idx)
+	in.inInterferer = true
+	saved := in.curFrame
+	in.call(nil, 0, in.interferer, nil)
+	in.curFrame = saved
+	in.inInterferer = false
+}
+
+func (in *interp) interleave(fr *frame, mainFn, other value) {
+	if in.interferer != nil || len(in.threads) > 1 {
+		unsupported("nested Interleave / Interleave inside Par")
+	}
+	in.interferer, in.interfereDone, in.interferePoints = other, false, 0
+	in.call(fr, fr.callpos, mainFn, nil)
+	if !in.interfereDone {
+		in.fireInterferer(-1)
+	}
+	in.interferer = nil
 }
